@@ -59,14 +59,14 @@ func drawC08(t *rapid.T) *c08Scenario {
 	d.Steps = []dStep{{Kind: "disrupt"}}
 	for i := 1; i < n; i++ {
 		l := fmt.Sprintf("c08step%d", i)
-		kind := rapid.SampledFrom([]string{"queue", "init", "disrupt", "initOne", "queue", "lose", "advance", "finish", "restart"}).Draw(t, l+"_kind")
+		kind := rapid.SampledFrom([]string{"queue", "init", "disrupt", "initOne", "queue", "lose", "advance", "finish", "restart", "loseLag"}).Draw(t, l+"_kind")
 		st := dStep{Kind: kind}
 		if kind == "advance" {
 			st.Sec = rapid.SampledFrom([]int{1, 30, 300, 601, 3700}).Draw(t, l+"_sec")
 		}
 		d.Steps = append(d.Steps, st)
 	}
-	return &c08Scenario{D: d, FaultKinds: rapid.SliceOfN(rapid.IntRange(0, 2), 6, 6).Draw(t, "faultKinds")}
+	return &c08Scenario{D: d, FaultKinds: rapid.SliceOfN(rapid.IntRange(0, 3), 6, 6).Draw(t, "faultKinds")}
 }
 
 type c08Result struct {
@@ -77,10 +77,13 @@ type c08Result struct {
 	faultFired                                                  bool
 	faultInProtocol                                             bool
 	unsynced                                                    bool
+	rolledBackByQueue                                           int
 }
 
 func c08Err(kind int, c *sim.Call) error {
 	switch kind {
+	case 3:
+		return apierrors.NewNotFound(schema.GroupResource{Resource: strings.ToLower(c.Kind)}, c.Key)
 	case 1:
 		return apierrors.NewConflict(schema.GroupResource{Resource: strings.ToLower(c.Kind)}, c.Key, fmt.Errorf("injected conflict"))
 	default:
@@ -146,7 +149,11 @@ func runC08(s *c08Scenario, faultIdx, kind int) *c08Result {
 		}
 		seen++
 		if faultIdx > 0 && seen == faultIdx {
-			w.Faults[0].Err = c08Err(kind, call)
+			k := kind
+			if k == 3 && call.IsWrite() {
+				k = 0 // NotFound is only a faithful failure for cached reads; the API server never answers it for an object that exists
+			}
+			w.Faults[0].Err = c08Err(k, call)
 			res.faultFired = true
 			res.faultInProtocol = inProtocol
 			if kind == 2 {
@@ -223,13 +230,62 @@ func runC08(s *c08Scenario, faultIdx, kind int) *c08Result {
 		case "advance":
 			w.Clock.Step(time.Duration(st.Sec) * time.Second)
 		case "queue":
+			before := r.queue.GetCommands()
+			firedBefore := res.faultFired
 			r.runQueue()
+			// a command that the queue gave up on WITHOUT any injected failure in this step is rolled back by the queue
+			// itself, at once (the controller's sweep needs a synced cluster and may come much later)
+			if res.faultFired == firedBefore {
+				still := map[*disruption.Command]bool{}
+				for _, qc := range r.queue.GetCommands() {
+					still[qc] = true
+				}
+				marked := map[string]bool{}
+				for _, sn := range w.Cluster.DeepCopyNodes() {
+					if sn.MarkedForDeletion() {
+						marked[sn.ProviderID()] = true
+					}
+				}
+				for _, qc := range before {
+					if still[qc] || qc.Succeeded {
+						continue
+					}
+					for _, cn := range qc.Candidates {
+						nc := w.GetNodeClaim(cn.NodeClaim.Name)
+						if nc == nil || nc.DeletionTimestamp != nil {
+							continue
+						}
+						res.rolledBackByQueue++
+						if cond := nc.StatusConditions().Get(v1.ConditionTypeDisruptionReason); cond != nil && cond.IsTrue() {
+							violate("queue-rollback:disruption-reason-left", "step %d: the queue gave up on a %s command but left the DisruptionReason condition on %s", i, qc.Reason(), nc.Name)
+						}
+						if cn.Node != nil {
+							for _, n := range w.ListNodes() {
+								if n.Name != cn.Node.Name {
+									continue
+								}
+								for _, t := range n.Spec.Taints {
+									if t.MatchTaint(&v1.DisruptedNoScheduleTaint) {
+										violate("queue-rollback:taint-left", "step %d: the queue gave up on a %s command but left the disruption taint on node %s", i, qc.Reason(), n.Name)
+									}
+								}
+							}
+						}
+						if marked[cn.ProviderID()] {
+							violate("queue-rollback:still-marked-for-deletion", "step %d: the queue gave up on a %s command but %s is still marked for deletion", i, qc.Reason(), nc.Name)
+						}
+					}
+				}
+			}
 		case "init":
 			r.initReplacements()
 		case "initOne":
 			r.initSome(1)
 		case "lose":
 			r.loseReplacement()
+		case "loseLag":
+			// the replacement disappears from the API but the informers have not delivered the deletion yet
+			r.loseReplacementNoSync()
 		case "finish":
 			r.finishDeleting()
 		case "restart":
@@ -373,12 +429,12 @@ func execC08(s *c08Scenario, c *ev.Ctx) {
 	executions := 1
 	kindsPer := 1
 	if os.Getenv("VERIF_TIER") == "thorough" {
-		kindsPer = 3
+		kindsPer = 4
 	}
 	nt := false
 	for i := 1; i <= base.faultable && len(c.Violations()) == 0; i++ {
 		for k := 0; k < kindsPer; k++ {
-			kind := (s.FaultKinds[i%len(s.FaultKinds)] + k) % 3
+			kind := (s.FaultKinds[i%len(s.FaultKinds)] + k) % 4
 			r := runC08(s, i, kind)
 			executions++
 			nt = nt || (r.faultFired && r.faultInProtocol && r.withReplacement > 0)
@@ -395,6 +451,7 @@ func execC08(s *c08Scenario, c *ev.Ctx) {
 	c.ClassIf(base.deletes > 0, "candidates_deleted")
 	c.ClassIf(base.unsuccessful > 0, "action_ended_without_removing_candidate")
 	c.ClassIf(base.failedStarts > 0, "start_failed")
+	c.ClassIf(base.rolledBackByQueue > 0, "rolled_back_by_queue")
 	for _, st := range s.D.Steps {
 		c.Class("step:" + st.Kind)
 	}
@@ -404,7 +461,7 @@ func execC08(s *c08Scenario, c *ev.Ctx) {
 
 var propC08 = ev.Prop[c08Scenario]{
 	ID: "C08", Test: "TestC08", Level: "fault_enumeration",
-	Rule: "rapid draws a disruption world biased to drift (dynamic and static pools) and replace-consolidation, and a history of 2-9 steps from {disruption reconcile, queue reconcile, all / one replacement becomes Initialized through the real lifecycle controller, a replacement vanishes, clock +1s..+61m (past the command timeout), nodes finish terminating, controller restart (new cluster state, queue, provisioner, methods)}; a fault-free run counts the faultable calls (every API write of the disruption controller and queue, plus every read made between a method returning commands and the end of StartCommand and inside queue reconciles), then EACH index is failed once (quick: one drawn kind of 500 / conflict / persistent-500-until-the-controller-call-returns, thorough: all three); " +
+	Rule: "rapid draws a disruption world biased to drift (dynamic and static pools) and replace-consolidation, and a history of 2-9 steps from {disruption reconcile, queue reconcile, all / one replacement becomes Initialized through the real lifecycle controller, a replacement vanishes (with or without the informers having delivered the deletion), clock +1s..+61m (past the command timeout), nodes finish terminating, controller restart (new cluster state, queue, provisioner, methods)}; a fault-free run counts the faultable calls (every API write of the disruption controller and queue, plus every read made between a method returning commands and the end of StartCommand and inside queue reconciles), then EACH index is failed once (quick: one drawn kind of 500 / conflict / persistent-500-until-the-controller-call-returns / NotFound, thorough: all four); " +
 		"oracle: monitor at the instant of every NodeClaim delete issued by the queue - the claim is a candidate of a computed command, every replacement of that command exists and is Initialized in the API, and the command is not past its timeout; after every step no provider id belongs to two commands and no method selects a node of a command in flight; after the history and ONE fault-free disruption reconcile, every candidate of a command that is no longer in the queue and that was not deleted carries neither the disruption taint nor the DisruptionReason condition and is not marked for deletion in the cluster state; " +
 		"non-trivial = the scenario started a command with a replacement and the fault landed inside the protocol (StartCommand or a queue reconcile), or such a command ended without removing its candidate; evaluations are scenarios, executions (scenario x fault) are in the counters",
 	Assumptions: []string{"client-go's retry.DefaultBackoff keeps its four attempts but does not sleep real time", "calls of one command's candidates run in parallel goroutines: the fault index is an index into whatever order they took"},
